@@ -73,8 +73,24 @@ def inline(expr, body, depth=4, keep=()):
     return expr
 
 
+class _Canon(ast.NodeTransformer):
+    """order-insensitive forms: operands of `==` / `!=` and of `and` / `or` are sorted"""
+    def visit_Compare(self, n):
+        self.generic_visit(n)
+        if len(n.ops) == 1 and isinstance(n.ops[0], (ast.Eq, ast.NotEq)):
+            a, b = sorted([n.left, n.comparators[0]], key=lambda x: ast.dump(x))
+            n.left, n.comparators = a, [b]
+        return n
+
+    def visit_BoolOp(self, n):
+        self.generic_visit(n)
+        n.values = sorted(n.values, key=lambda x: ast.dump(x))
+        return n
+
+
 def key(expr):
-    return ast.dump(expr, annotate_fields=False, include_attributes=False)
+    e = _Canon().visit(copy.deepcopy(expr))
+    return ast.dump(e, annotate_fields=False, include_attributes=False)
 
 
 def vocab(expr):
